@@ -324,6 +324,37 @@ def check_shared_state(ctx: Ctx, files: List[str]):
                         f"{fn.name} is memoised and returns an object it builds (`{ast.unparse(builds.value)[:70]}`): every later call with equal "
                         f"arguments receives the SAME object, with whatever state (identifier tables, stores, accumulated entries) the "
                         f"earlier calls left in it", fn.lineno)
+    # a class-level default that is an INSTANCE of an in-package class with state -- `field(default=UserAdapter())` in a dataclass, or
+    # `x: T = UserAdapter()` in a class body -- is one object shared by every instance of the class: what one of them registers in
+    # it is seen by all the others (python only refuses list / dict / set defaults)
+    for m in ctx.index.modules.values():
+        if m.relpath not in relfiles and not any(m.name in q for q in scope) and os.path.dirname(m.relpath) not in {os.path.dirname(f_) for f_ in relfiles}:
+            continue
+        for ci in m.classes.values():
+            for st in ci.node.body:
+                if not isinstance(st, (ast.AnnAssign, ast.Assign)) or st.value is None:
+                    continue
+                v = st.value
+                if isinstance(v, ast.Call) and (dotted_name(v.func) or "").split(".")[-1] == "field":
+                    v = next((k.value for k in v.keywords if k.arg == "default"), None)
+                if not isinstance(v, ast.Call):
+                    continue
+                try:
+                    sy = ctx.index.resolve_expr(m, v.func)
+                except Exception:  # noqa: BLE001
+                    sy = None
+                if sy is None or sy.kind != "class" or sy.cls is None or ctx.models.is_model(sy.cls) or sy.cls.has_ext_base("Enum"):
+                    continue
+                inits = [c.methods["__init__"][-1] for c in sy.cls.mro() if "__init__" in c.methods]
+                stateful = any(isinstance(x, (ast.Assign, ast.AnnAssign))
+                               and any(isinstance(t, ast.Attribute) and isinstance(t.value, ast.Name) and t.value.id == "self" for t in (x.targets if isinstance(x, ast.Assign) else [x.target]))
+                               and isinstance(x.value, (ast.Dict, ast.List, ast.Set, ast.Call)) for i_ in inits for x in ast.walk(i_))
+                if stateful:
+                    tgt = ast.unparse(st.target if isinstance(st, ast.AnnAssign) else st.targets[0])
+                    ctx.bad("G.2", m.relpath, ci.name, f"{tgt} = {ast.unparse(st.value)[:60]}",
+                            f"the class-level default of {ci.name}.{tgt} is ONE {sy.cls.name} object created when the class is defined and shared by "
+                            f"every instance that does not override it: what one of them stores in it (registered objects, identifier tables) "
+                            f"shows up in all the others", st.lineno)
     # G.3 on the summaries the rules used (helpers spliced in: a helper that fills a list it is handed is local state there)
     ctx.rule("G.3", "no in-place change of an argument (aliasing / input mutation)", 1)
     n3 = 0
@@ -514,6 +545,15 @@ def class_decl(ci):
     return {"bases": bases}
 
 
+def _is_const_display(v):
+    """a constant or a (nested) tuple / list display of constants (a class-level table of names), or nothing"""
+    if v is None or isinstance(v, ast.Constant):
+        return True
+    if isinstance(v, (ast.Tuple, ast.List)):
+        return all(_is_const_display(e) for e in v.elts)
+    return False
+
+
 def plain_new_bases(ci, ref_classes):
     """names of the bases of ci that are in-package classes introduced after the reference tree and plain: no external ancestry, no
     special method other than the constructor (which the rules read through super().__init__), no annotated class attributes --
@@ -523,7 +563,7 @@ def plain_new_bases(ci, ref_classes):
     for b in ci.bases:
         if b.name not in known and all(not (set(x.split(".")[-1] for x in c.ext_bases) - IGNORABLE_BASES)
                                        and not ({n for n in c.methods if n in PROTOCOL_METHODS} - {"__init__"})
-                                       and not any(isinstance(st, ast.AnnAssign) for st in c.node.body) for c in b.mro()):
+                                       and not any(isinstance(st, ast.AnnAssign) and not _is_const_display(st.value) for st in c.node.body) for c in b.mro()):
             out.add(b.name)
     return out
 
